@@ -5,6 +5,8 @@ Oracle: brute-force set L of linear extensions (all permutations filtered by
 "descendant data before ancestor data", outliers free).  E1 gives the *exact* sampling law
 of RootPermutationDistribution.sample: support == L, each order has probability 1/|L|
 (1e-12), and log_pdf(tree) == -log|L| (1e-9).
+Call sites: the order the burn-in and particle-Gibbs samplers hand to their SMC pass (recorded at the SMC sampler's
+constructor, pass stopped there) must be one of the compatible orders.
 """
 import math
 
